@@ -282,6 +282,8 @@ func checkC08(w *World, r *Report) {
 	c08Base85(w, r)
 	c08WrittenLen(w, r)
 	c08LengthAlgebra(w, r)
+	r.Rule("R08.11", "Encode and Decode never write into their argument", 14)
+	c08CodecsLeaveTheirInputAlone(w, r)
 	r.Rule("R08.10", "no codec takes a single Read of a stream decoder for the whole input", 1)
 	ruleSingleReadIsNotFull(w, r, "R08.10", func(p string) bool { return strings.HasSuffix(p, "/internal/util/enc") || strings.HasPrefix(p, modPath+"/internal/streams/dns") })
 	c08FreshResults(w, r, codecs)
@@ -327,7 +329,9 @@ func linearInLen(v ssa.Value, src ssa.Value, depth int) (a, b int64, ok bool) {
 // fewer than 4 bytes of room are left, and one 'z' expands to 4 bytes: unless
 // the consumed-count result is checked, the destination must have room for
 // 4*len(src)+4 bytes.
-func c08DecodeRoom(w *World, r *Report) {
+func c08DecodeRoom(w *World, r *Report) { ruleAscii85Room(w, r, "R08.7") }
+
+func ruleAscii85Room(w *World, r *Report, rule string) {
 	for fn := range allModuleFuncs(w, w.SSA()) {
 		for _, c := range callsIn(fn) {
 			f := sCallee(c)
@@ -344,7 +348,7 @@ func c08DecodeRoom(w *World, r *Report) {
 				}
 			}
 			if nsrcUsed {
-				r.Hold("R08.7", key, w.Pos(call.Pos()), "the number of consumed source bytes is inspected")
+				r.Hold(rule, key, w.Pos(call.Pos()), "the number of consumed source bytes is inspected")
 				continue
 			}
 			dst, src := call.Call.Args[0], call.Call.Args[1]
@@ -362,7 +366,7 @@ func c08DecodeRoom(w *World, r *Report) {
 					}
 				}
 			}
-			r.Check(okRoom, "R08.7", key, w.Pos(call.Pos()), "destination has room for 4*len(source)+4 bytes (worst case: every character a 'z' group)",
+			r.Check(okRoom, rule, key, w.Pos(call.Pos()), "destination has room for 4*len(source)+4 bytes (worst case: every character a 'z' group)",
 				why+": ascii85.Decode returns early with a nil error once fewer than 4 bytes of room are left and a single 'z' expands to four zero bytes, so inputs with zero groups decode to a silent prefix (the consumed-count result is discarded)")
 		}
 	}
